@@ -330,7 +330,7 @@ def family_grammar(rng, costs=(0, 5)):
     """Hand-shaped ambiguous families with random translation specifications:
     split families (several nonterminals in one rule, each with several lengths),
     shared-subtree families, operator families, nullable families."""
-    fam = rng.choice(['split', 'split', 'shared', 'ops', 'nullable'])
+    fam = rng.choice(['split', 'split', 'shared', 'ops', 'nullable', 'chains', 'chains'])
     nid = [0]
 
     def an():
@@ -386,6 +386,32 @@ def family_grammar(rng, costs=(0, 5)):
             rules.append(('E', ['(', 'E', ')'], None, 0, [1]))
         rules.append(('E', ['a'], rng.choice([None, an()]), cst(), [0]))
         terms = [('a', 97), ('+', 43), ('*', 42), ('-', 45), ('(', 40), (')', 41)]
+    elif fam == 'chains':
+        # alternatives reaching one shared nonterminal through different unit chains,
+        # told apart only by the terminal that follows (exercises lookahead contexts)
+        k = rng.randint(2, 4)
+        rules.append(('L', ['X'], None, 0, [0]))
+        rules.append(('L', ['L', 'X'], an(), cst(), [0, 1]))
+        heads = ['C', 'P', 'Q']
+        sufs = ['a', 'b', 'c', 'd']
+        order = list(range(k))
+        rng.shuffle(order)
+        for i in order:
+            h = rng.choice(heads)
+            rules.append(('X', [h, sufs[i]], an(), cst(), [0]))
+        rules.append(('P', ['C'], None, 0, rng.choice([[0], None])))
+        rules.append(('Q', [rng.choice(['P', 'C'])], None, 0, [0]))
+        if rng.random() < 0.5:
+            rules.append(('Q', ['C'], None, 0, [0]))
+        rules.append(('C', ['t'], rng.choice([None, an()]), 0, [0]))
+        if rng.random() < 0.4:
+            rules.append(('C', ['t', 'u'], an(), cst(), [0, 1]))
+        if rng.random() < 0.3:
+            rules.append(('C', [], None, 0, None))
+        rng.shuffle(rules)
+        # keep L first (start symbol)
+        rules.sort(key=lambda r: 0 if r[0] == 'L' and r[1] == ['X'] else 1)
+        terms = [('t', 116), ('u', 117)] + [(x, ord(x)) for x in sufs]
     else:
         rules.append(('S', ['a', 'O'] + rng.choice([[], ['O']]), an(), cst(), perm_tr(2 + 0, 2)))
         rules.append(('O', ['P'], None, 0, [0]))
